@@ -637,6 +637,7 @@ func (p *forRangeStmt) RangeAssignThen(cb *CodeBuilder, pos token.Pos) {
 }
 
 func (p *forRangeStmt) getKeyValTypes(cb *CodeBuilder, typ types.Type) []types.Type {
+	orig := typ
 retry:
 	switch t := typ.(type) {
 	case *types.Slice:
@@ -666,7 +667,7 @@ retry:
 			if (t.Info() & types.IsUntyped) != 0 {
 				return []types.Type{types.Typ[types.Int], nil}
 			}
-			return []types.Type{t, nil}
+			return []types.Type{orig, nil} // the operand's own type, also when it is a named integer type
 		}
 	case *types.Signature:
 		// Go 1.23 range over function types:
